@@ -417,6 +417,15 @@ def repository_section():
     marks = [unparse(n) for n in ast.walk(rs) if isinstance(n, ast.If)]
     res_chunkless = res_chunkless and any(m.startswith('if not ordered_chunks:\n    chunkless_files.append(file_path)') for m in marks)
     emit(f'def restoresChunklessFiles : Bool := {"true" if res_chunkless else "false"}')
+    # --- cache verification (C18)
+    dst = find_func(tree, 'Repository', '_download_snapshot_threadsafe')
+    cache_ok = False
+    if dst is not None:
+        for n in ast.walk(dst):
+            if isinstance(n, ast.Try) and n.orelse:
+                t = [unparse(x) for x in n.orelse]
+                cache_ok = any(x.startswith('if self.props.hash_digest(contents) != expected_digest:') and 'contents = None' in x for x in t)
+    emit(f'def cacheVerified : Bool := {"true" if cache_ok else "false"}')
     for nm in ('_download_snapshot_threadsafe', '_load_snapshots', 'delete_snapshots', 'clean', '_decrypt_snapshot_body',
                '_encrypt_snapshot_body', '_chunk_digest_to_location_parts', '_snapshot_digest_to_location_parts', 'init',
                'unlock', 'add_key', '_make_key', '_instantiate_key', '_make_config', 'list_snapshots', 'list_files',
